@@ -680,6 +680,8 @@ pub enum CustomTypeParseError {
     InvalidUtf8(Vec<u8>),
     #[error("Wrong number of parameters {actual}, expected: {expected}")]
     InvalidParameterCount { actual: usize, expected: usize },
+    #[error("Custom type is nested deeper than the supported limit of {0} levels")]
+    NestingTooDeep(usize),
 }
 
 /// An error type returned when deserialization of CQL type name fails.
